@@ -147,7 +147,8 @@ json generate(uint64_t seed, uint64_t idx, int tier)
 		p["main"] = 1;
 		steps.push_back(p);
 		// afterwards a good include must work (no lasting loss of include capacity)
-		json g = parse_step(0, 0, "buf", "include(\"/t/good.conf\")\n");
+		// (with a search path: sometimes a relative name with a directory part, which goes through the list like any other)
+		json g = parse_step(0, 0, "buf", (t.mode == 1 && r.chance(1, 2)) ? "include(\"sub/good.conf\")\n" : "include(\"/t/good.conf\")\n");
 		g["good"] = 1;
 		steps.push_back(g);
 	} else {
